@@ -155,7 +155,10 @@ int main(int argc, char ** argv) {
     for (k = 0; k < 200 && myth_get_worker_num() == 0 && n > 1; k++) myth_yield_ex(myth_yield_option_steal_first);
     if (myth_get_worker_num() != 0) fini_migrated0++;
     myth_fini();
-    int after_fini = count_tasks();
+    /* pthread_join returns when the kernel clears the exiting thread's tid, a moment before the task
+       disappears from /proc: give it a bounded grace period (seen under load) */
+    int after_fini = count_tasks(), grace;
+    for (grace = 0; grace < 400 && after_fini > before; grace++) { myth_verif_real_usleep(5000); after_fini = count_tasks(); }
     HK_CHECK(after_fini == before, "fini:os-threads-left", "cycle %d: %d OS threads after fini, %d before init (n=%d)", c, after_fini, before, n);
     total_workers += n;
     if (c < 2) hk_sample("cycle %d: %d workers requested via %s, %d OS threads before / %d after init / %d after fini, user code seen on %d OS threads",
